@@ -206,7 +206,10 @@ Definition app_send (s : st) (h : nat) (pp : Z) (data : bytes) : st * list event
 Definition chan_closed (s : st) (sidv : Z) : st * list event :=
   match tget (table s) sidv with
   | None => (s, [])
-  | Some h => set_ready (set_table s (tdel (table s) sidv)) h Closed
+  | Some h =>
+      (* the stream has been reset: messages still queued for the channel are dropped *)
+      let s1 := set_table s (tdel (table s) sidv) in
+      set_ready (set_queue s1 (filter (fun it => negb (Nat.eqb (fst (fst it)) h)) (queue s1))) h Closed
   end.
 
 (* _data_channel_close: the branch taken when the association is not established or the
